@@ -28,7 +28,7 @@ var dayRatesN = map[string]string{
 }
 
 func checkC01(p *Prog, r *Report) {
-	c01R1(p, r)
+	c01R1(p, r, "C01.R1")
 	rateScaling(p, r, "C01.R2", dayRatesWater, 19)
 	c01R3(p, r)
 	c01R4(p, r)
@@ -119,8 +119,8 @@ func loopBounds(x *Exec, L *LoopCtx) (lo, hi Poly, unit bool, why string) {
 	return lo, hi, n == 1, ""
 }
 
-func c01R1(p *Prog, r *Report) {
-	r.Rule("C01.R1", "sub-step partition: trip count n and sub-step length w of the sub-step loop satisfy n·w ≡ DT on every arm that defines them; int() only applied to integral values; Water and Nitro receive the same w", 3)
+func c01R1(p *Prog, r *Report, rule string) {
+	r.Rule(rule, "sub-step partition: trip count n and sub-step length w of the sub-step loop satisfy n·w ≡ DT on every arm that defines them; int() only applied to integral values; Water and Nitro receive the same w", 3)
 	si := substepScope(p)
 	if si.Loop == nil {
 		r.Ob("substep-loop", "-", false, "sub-step loop not found: "+strings.Join(si.Problems, "; "))
@@ -251,14 +251,14 @@ func c01R1(p *Prog, r *Report) {
 			rhs := as.Rhs[i]
 			rounded := false
 			if call, ok := rhs.(*ast.CallExpr); ok {
-				if f := callee(x.Info, call); f != nil && f.Pkg() != nil && f.Pkg().Path() == "math" && (f.Name() == "Round" || f.Name() == "Ceil" || f.Name() == "Floor" || f.Name() == "RoundToEven") {
+				if f := callee(x.Info, call); f != nil && f.Pkg() != nil && f.Pkg().Path() == "math" && (f.Name() == "Round" || f.Name() == "RoundToEven") {
 					rounded = true
 				}
 			}
 			div := false
 			ast.Inspect(rhs, func(m ast.Node) bool {
 				if call, ok := m.(*ast.CallExpr); ok {
-					if f := callee(x.Info, call); f != nil && f.Pkg() != nil && f.Pkg().Path() == "math" && (f.Name() == "Round" || f.Name() == "Ceil" || f.Name() == "Floor" || f.Name() == "RoundToEven") {
+					if f := callee(x.Info, call); f != nil && f.Pkg() != nil && f.Pkg().Path() == "math" && (f.Name() == "Round" || f.Name() == "RoundToEven") {
 						return false // a rounded quotient is an exact integer again
 					}
 				}
@@ -270,7 +270,7 @@ func c01R1(p *Prog, r *Report) {
 				return true
 			})
 			okF := rounded || !div
-			r.Ob("float-exact", p.Pos(as.Pos()), okF, fmt.Sprintf("%s = %s: %s", conv.Name, types.ExprString(rhs), map[bool]string{true: "exact integer in float64 (no float division, or rounded to the nearest integer before int())", false: "a float quotient is truncated by int(): for n = 93, 99, 105, … the quotient 1/(1/n) is just below n, one sub-step and its share of the day's water is dropped"}[okF]))
+			r.Ob("float-exact", p.Pos(as.Pos()), okF, fmt.Sprintf("%s = %s: %s", conv.Name, types.ExprString(rhs), map[bool]string{true: "exact integer in float64 (no float division, or rounded to the nearest integer before int())", false: "a float quotient is truncated or rounded in one direction only: for n = 93, 99, 105, … the quotient 1/(1/n) is just below n (int/Floor drop a sub-step and its share of the day's water), for n = 49, 98, 103, … just above n (Ceil adds a sub-step: the day's uptake and evaporation are applied (n+1)/n times); only rounding to the nearest integer is safe"}[okF]))
 		}
 	}
 	if nDefs == 0 {
